@@ -187,6 +187,29 @@ def operator_queries(facts):
     return out
 
 
+NULLABLE = {'int': 'lineno % 0', 'Decimal': 'cost_number', 'str': 'cost_label', 'date': 'cost_date', 'bool': '(cost_number > 0)',
+            'relativedelta': "interval(cost_label)", 'Amount': 'price', 'Position': "filter_currency(position, 'NOSUCH')"}
+MIX_TYPES = ['int', 'Decimal', 'str', 'date', 'bool', 'relativedelta', 'Amount', 'Position', 'Inventory', 'set']
+BINOPS = ['+', '-', '*', '/', '%', '=', '!=', '<', '<=', '>', '>=', '~', 'IN']
+
+
+def mixed_queries(facts):
+    """every ordered pair of operand types under coalesce() and under every binary operator, evaluated on rows where the
+    first operand may be NULL; most are rejected by the checker, which is fine"""
+    out = []
+    for ta in MIX_TYPES:
+        for tb in MIX_TYPES:
+            a = NULLABLE.get(ta) or ARG[ta][0]
+            for b in ARG[tb][:2]:
+                out.append(('coalesce(%s,%s)' % (ta, tb), 'SELECT coalesce(%s, %s) AS v FROM #postings' % (a, b)))
+            a2 = ARG[ta][0]
+            b2 = ARG[tb][0]
+            for op in BINOPS:
+                out.append(('%s %s %s' % (ta, op, tb), 'SELECT %s %s %s AS v FROM #postings' % (a2, op, b2)))
+                out.append(('%s %s %s in where' % (ta, op, tb), 'SELECT account FROM #postings WHERE %s %s %s' % (a2, op, b2)))
+    return out
+
+
 def bean_layer(ctx):
     rng = ctx.rng
     nledgers = 3 if not ctx.thorough() else 10
@@ -218,6 +241,11 @@ def bean_layer(ctx):
                 continue
             type_oracle(ctx, conn, q, 'overload:' + label)
             ctx.count('overload-driven')
+        # statements the checker is expected to reject (mixed operand / argument types): whatever it accepts must
+        # still be truthful about its types and must not fail with a type error
+        for label, q in (mixed_queries(facts) if k == 0 or ctx.thorough() else []):
+            type_oracle(ctx, conn, q, 'mixed:' + label)
+            ctx.count('mixed-driven')
         # known finding probes
         for q, known in (('SELECT DISTINCT other_accounts FROM #postings', 'F-5'),
                          ('SELECT other_accounts, count(*) FROM #postings', 'F-5')):
